@@ -416,8 +416,7 @@ stuffing byte on its own -/
 def packetGroups (p : Packet) (bs : Bytes) : Program :=
   let a := p.adaptationField.getD default
   let afLen := if p.header.hasAdaptationField then (afBytes a).length else 0
-  let priv := if !a.isOneByteStuffing && a.hasTransportPrivateData && decide (a.transportPrivateDataLength > 0)
-    then a.transportPrivateData.length else 0
+  let priv := if !a.isOneByteStuffing && a.hasTransportPrivateData then a.transportPrivateData.length else 0
   let plLen := if p.header.hasPayload then p.payload.length else 0
   [one (bs.take 1), perByte ((bs.drop 1).take 3),
    cutCalls (((bs.drop 1).drop 3).take afLen) (privOffOf a - 4) priv 0,
